@@ -883,6 +883,43 @@ pub fn analyse(
             }
         }
 
+        // R10 for a request whose task had started: removing its association while it runs is not a shutdown either (queued
+        // requests are dropped with the association, a running one is told NoSuchAssociation or times out)
+        if let Some((t, _, false, outcome)) = &user.done {
+            let shut_down = killed_at.map(|k| k <= *t).unwrap_or(false);
+            let self_aborted = matches!(user.kind, UserKind::FileRead { abort_at: Some(_), .. });
+            if outcome.contains("Shutdown") && !shut_down && !self_aborted && !task.steps.is_empty() {
+                fail(Violation::new(
+                    "C16/shutdown-reported-without-shutdown",
+                    format!("{} started", kind_name(&user.kind)),
+                    format!(
+                        "user request {} ({:?}), whose first request was written at {} ms, failed at {} ms with {} although the master was never shut down",
+                        user.id, user.kind, task.steps[0].written, t, outcome
+                    ),
+                ));
+            }
+        }
+
+        // R11: the first request of a command task carries exactly the objects the user asked for, in order
+        if let UserKind::Command { headers, .. } = &user.kind {
+            if let Some(first) = task.steps.first() {
+                let want = crate::verif::smast::reference_command_objects(headers);
+                if matches!(first.func, refapp::FUNC_SELECT | refapp::FUNC_DIRECT_OPERATE)
+                    && first.bytes.len() >= 2
+                    && first.bytes[2..] != want[..]
+                {
+                    fail(Violation::new(
+                        "C16/request-differs-from-command-set",
+                        "",
+                        format!(
+                            "user request {} asked for {:?}; the request written to {} at {} ms carries {:02X?}, the command set encodes as {:02X?}",
+                            user.id, headers, task.assoc, first.written, &first.bytes[2..], want
+                        ),
+                    ));
+                }
+            }
+        }
+
         let Some((done_t, _, ok, outcome)) = user.done.clone() else {
             continue;
         };
